@@ -116,3 +116,12 @@ func VerifDefaultI32(v int32) *DefaultValue {
 	}
 	return &DefaultValue{goValue: int64(v), jsonValue: js, thriftBinary: string(p.Buf)}
 }
+
+// VerifAddHTTP attaches http-mapping annotations to a field the way handleAnnotation does
+// (AnnoKindHttpMappping): appended in IDL order, the struct remembers the field.
+func VerifAddHTTP(ty *TypeDescriptor, f *FieldDescriptor, hms ...HttpMapping) {
+	for _, hm := range hms {
+		f.httpMappings = append(f.httpMappings, hm)
+		ty.Struct().addHttpMappingField(f)
+	}
+}
